@@ -1,1 +1,3 @@
 import Props.C15
+import Props.C07
+import Props.C13
